@@ -351,11 +351,34 @@ fn panic_text(p: Box<dyn std::any::Any + Send>) -> String {
     vcore::direct::panic_text(p)
 }
 
-fn stake_code() -> Box<dyn Contract<Empty>> {
-    Box::new(ContractWrapper::new(cw4_stake::contract::execute, cw4_stake::contract::instantiate, cw4_stake::contract::query))
+/// stand-in for trees whose cw4-stake has no `reply` entry point (the pinned tree): being called back fails,
+/// as it does on a chain
+#[allow(dead_code)]
+fn reply(_deps: cosmwasm_std::DepsMut, _env: cosmwasm_std::Env, _msg: cosmwasm_std::Reply) -> cosmwasm_std::StdResult<cosmwasm_std::Response> {
+    Err(cosmwasm_std::StdError::generic_err("the contract has no reply entry point"))
 }
+
+fn stake_code() -> Box<dyn Contract<Empty>> {
+    // (the contract's own `reply`, if it has one, shadows the stand-in above inside this block)
+    #[allow(unused_imports)]
+    use cw4_stake::contract::*;
+    Box::new(ContractWrapper::new(cw4_stake::contract::execute, cw4_stake::contract::instantiate, cw4_stake::contract::query).with_reply(reply))
+}
+thread_local! {
+    /// while set, the stake token refuses every Transfer (a frozen / paused token): the call that needs the
+    /// transfer fails as a whole
+    static TOKEN_REFUSES_TRANSFERS: std::cell::Cell<bool> = const { std::cell::Cell::new(false) };
+}
+
+fn cw20_execute(deps: cosmwasm_std::DepsMut, env: cosmwasm_std::Env, info: cosmwasm_std::MessageInfo, msg: Cw20ExecuteMsg) -> Result<cosmwasm_std::Response, cw20_base::ContractError> {
+    if TOKEN_REFUSES_TRANSFERS.with(|c| c.get()) && matches!(msg, Cw20ExecuteMsg::Transfer { .. }) {
+        return Err(cw20_base::ContractError::Std(cosmwasm_std::StdError::generic_err("the token refuses transfers for now (injected fault)")));
+    }
+    cw20_base::contract::execute(deps, env, info, msg)
+}
+
 fn cw20_code() -> Box<dyn Contract<Empty>> {
-    Box::new(ContractWrapper::new(cw20_base::contract::execute, cw20_base::contract::instantiate, cw20_base::contract::query))
+    Box::new(ContractWrapper::new(cw20_execute, cw20_base::contract::instantiate, cw20_base::contract::query))
 }
 
 /// release date of a claim as an ordered key: (kind, value)
@@ -955,7 +978,15 @@ pub fn run_case(prop: &str, case: &Case, ctx: &mut CaseCtx) -> Result<(), Violat
             Op::Claim { by } => {
                 let u = resolve_who(by, &pre, &block);
                 let (user, stake) = (w.users[u].clone(), w.stake.clone());
+                // (every fifth step a cw20 stake token is frozen while the Claim runs: the payout cannot be made, so
+                // the Claim fails as a whole and the claims stay on the books)
+                let frozen = w.main20.is_some() && step_no % 5 == 3;
+                TOKEN_REFUSES_TRANSFERS.with(|c| c.set(frozen));
                 let r = w.exec(&user, &stake, &ExecuteMsg::Claim {}, &[]);
+                TOKEN_REFUSES_TRANSFERS.with(|c| c.set(false));
+                if frozen {
+                    ctx.count(if r.is_ok() { "claim_while_token_frozen_ok" } else { "claim_while_token_frozen_failed" });
+                }
                 (Kind::Claim, u, 0, r)
             }
             Op::Donate { by, amt } => {
